@@ -37,6 +37,7 @@ type AssertAt struct {
 	C      Clause
 	Anchor string // e.g. "after call truncateHeaders#0", "before call X#0", "entry"
 	Assume bool
+	Havoc  []Expr // "havoc loc at anchor": rely step for state shared with concurrently running callbacks
 }
 
 type FuncContract struct {
@@ -119,7 +120,7 @@ var labelRe = regexp.MustCompile(`^([A-Za-z][A-Za-z0-9_\-]*):(?:[^:]|$)`)
 var clauseKW = map[string]bool{
 	"requires": true, "ensures": true, "modifies": true, "loop": true, "assume-only": true, "pure": true,
 	"inline": true, "assert": true, "assume": true, "props": true, "noframe": true, "fresh": true, "panics_if": true, "ghost": true,
-	"durable": true, "crashstates": true,
+	"durable": true, "crashstates": true, "havoc": true,
 }
 var topKW = map[string]bool{
 	"func": true, "define": true, "abstract": true, "sort": true, "axiom": true, "ghost": true, "package": true, "ignore": true, "implements": true,
@@ -417,6 +418,16 @@ func ParseSpecFile(path string, pkgPath string) (*SpecFile, error) {
 				return nil, fmt.Errorf("%s:%d: %v", path, it.line, err)
 			}
 			cur.Ghosts = append(cur.Ghosts, GhostLoopVar{Name: n, Type: strings.TrimSpace(r2[:i]), Init: ini})
+		case "havoc":
+			i := strings.LastIndex(rest, " at ")
+			if i < 0 {
+				return nil, fmt.Errorf("%s:%d: havoc without anchor", path, it.line)
+			}
+			locs, _, err := parseLocs(rest[:i], it.line)
+			if err != nil {
+				return nil, err
+			}
+			cur.Asserts = append(cur.Asserts, AssertAt{Anchor: strings.TrimSpace(rest[i+4:]), Havoc: locs, C: Clause{Label: "havoc", Src: rest}})
 		case "assert", "assume":
 			// assert [label:] expr at anchor
 			i := strings.LastIndex(rest, " at ")
